@@ -34,6 +34,8 @@ AST nodes:  ("sym", name) ("any",) ("eos",) ("empty",)
 import itertools
 import re
 
+from hypothesis import strategies as st
+
 ANY = ("any",)
 EOS = ("eos",)
 EMPTY = ("empty",)
@@ -636,3 +638,35 @@ class Ref(object):
             raise OracleDisagreement("fullmatch of %r for %r: re %r automaton %r" % (
                 seq, render(self.ast), a, b))
         return a
+
+
+# ---------------------------------------------------------------------------
+# Hypothesis strategies for pattern trees (shared by C18 and C19)
+
+SCHEMES = (
+    ("a", "b", "c", "x"),
+    ("aa", "a", "a_1", "a_"),
+    ("sequence_header", "padding_data", "B2", "other_unit"),
+)
+
+
+@st.composite
+def sized_tree(draw, names3, n, top=True):
+    """A tree with exactly n leaves (an empty alternative, rarely added, has none)."""
+    if n == 1:
+        node = draw(st.sampled_from([sym(names3[0]), sym(names3[1]), sym(names3[2]), sym(names3[0]),
+                                     sym(names3[1]), ANY, ANY, EOS]))
+    else:
+        i = draw(st.integers(1, n - 1))
+        op = draw(st.sampled_from(["cat", "cat", "alt"]))
+        node = (op, draw(sized_tree(names3, i, False)), draw(sized_tree(names3, n - i, False)))
+    m = draw(st.sampled_from([None, None, None, "opt", "star", "star", "plus", "empty-alt"]))
+    if m == "empty-alt":
+        # 'x |' and '| x': pinned by the repository's own tests; kept rare
+        if draw(st.integers(0, 3)) == 0:
+            node = ("alt", node, EMPTY) if draw(st.booleans()) else ("alt", EMPTY, node)
+    elif m is not None:
+        node = (m, node)
+        if draw(st.integers(0, 7)) == 0:
+            node = (draw(st.sampled_from(["opt", "star", "plus"])), node)
+    return node
